@@ -72,7 +72,7 @@ func (r *c13Run) boot() (res string) {
 	}()
 	r.gate = newGateLoc(r.inner)
 	r.events = make(chan string, 256)
-	r.retained = make(chan []uint64, 256)
+	r.retained = make(chan []uint64) // unbuffered, as jobs.New creates it: received only by `drain`
 	r.store = snapshots.NewStore(&snapshots.NewStoreParams{
 		FileStore:                  r.gate,
 		SavepointsPath:             "savepoints",
